@@ -194,14 +194,35 @@ func (b *Broker) message(ctx context.Context) map[string][]Message {
 			defer cancel()
 			select {
 			case <-ctx.Done():
-				go b.doHeartBeat(context.Background(), id)
-				return map[string][]Message{}
+				return b.timeout(id, responder)
 			case result := <-responder:
 				return result
 			}
 		}
 	}
 	return <-responder
+}
+
+// timeout ends a poll whose timer has fired. The responder must not stay in
+// b.responders: a publisher popping it later would hand its messages to a channel that
+// nobody reads any more. It is withdrawn under the lock that Pop and SetIfAbsent take;
+// if it is not there, a publisher (or a newer poll) has taken it and is about to answer
+// it or to put it back, so the answer is awaited instead of being dropped.
+func (b *Broker) timeout(id string, responder chan map[string][]Message) map[string][]Message {
+	mine := func(_ string, value interface{}, exists bool) bool {
+		return exists && value.(chan map[string][]Message) == responder
+	}
+	for {
+		if b.responders.RemoveCb(id, mine) {
+			go b.doHeartBeat(context.Background(), id)
+			return map[string][]Message{}
+		}
+		select {
+		case result := <-responder:
+			return result
+		case <-time.After(time.Millisecond):
+		}
+	}
 }
 
 func (b *Broker) Unicast(ctx context.Context, data interface{}, topic string, id string, from string) bool {
